@@ -1,7 +1,7 @@
 ------------------------ MODULE BestAlternativeTrace ------------------------
 (* Code -> spec binding for C08: every record is one real grader call -- the abstract alternatives (credit, message,
-   value outcomes), the notation in which they were written in the configuration, the wrong_msg, and the projected
-   observation.  The alternatives the adapter claims must be the ones the notation denotes (Canon).  A record is accepted iff the observation is a
+   value outcomes), the notation in which they were written in the configuration, the host grader / option context it was rendered in (must be able to realise the
+   outcomes), the wrong_msg, and the projected observation.  The alternatives the adapter claims must be the ones the notation denotes (Canon).  A record is accepted iff the observation is a
    member of BestAlternative!AllowedOut; the clause of a rejection names the part of the statement that is broken.
    An allowed observation that is not the modelled first-in-listing selection is reported with clause "drift"
    (the adapter logs it, it is not a verdict). *)
@@ -12,11 +12,13 @@ Rec(i) == Trace[i]
 Clause(r) ==
   LET al == AllowedOut(r.alts, r.wrong)
       res == {o \in al : o.k = "res"}
-  IN IF ~WellFormed(r.alts) \/ ~WellFormedMsg(r.wrong) \/ ~WellFormedNotation(r.notation) THEN "malformed-record"
+  IN IF ~WellFormed(r.alts) \/ ~WellFormedMsg(r.wrong) \/ ~WellFormedNotation(r.notation) \/ ~Realisable(r.host, r.alts)
+        THEN "malformed-record"
      ELSE IF Canon(r.notation) # r.alts THEN "notation-denotes-other-alternatives"
      ELSE IF r.obs \in al THEN (IF r.obs = CodeOut(r.alts, r.wrong) THEN "ok" ELSE "drift")
      ELSE IF r.obs.k = "res" /\ res # {} THEN
           (IF \A o \in res : o.grade # r.obs.grade THEN "grade-not-maximum"
+           ELSE IF r.obs.msg.id = -1 THEN "message-from-elsewhere"
            ELSE IF r.obs.msg.id = 99 \/ \E o \in res : o.msg.id = 99 THEN "wrong-msg-rule"
            ELSE "message-not-longest-of-best")
      ELSE IF r.obs.k = "err" THEN (IF \E o \in al : o.k = "err" THEN "error-not-from-an-alternative" ELSE "unexpected-error")
